@@ -152,6 +152,27 @@ PROPS = {
         ],
         "not_covered": ["Display for Problem (declarations, types)", "rename_conflicting_symbols", "add_annotated_formulas", "decompose_*"],
     },
+    "C11": {
+        "units": ["ensure"],
+        "level": "other",
+        "property_obligations": ["ExternalEquivalenceTask::ensure_program_tightness", "ExternalEquivalenceTask::ensure_placeholder_name_uniqueness",
+                                 "ExternalEquivalenceTask::ensure_specification_roles_are_supported", "ExternalEquivalenceTask::ensure_valid_formula_representation",
+                                 "UserGuide::placeholders"],
+        "carriers": [],
+        "explanation": "Four of the nine applicability checks are proved exact on the real code (Verus): ensure_program_tightness refuses iff the program is not tight and --bypass-tightness is off, and accepts a non-tight "
+                       "program only with a warning; ensure_placeholder_name_uniqueness refuses iff two declared placeholders (distinct name/sort pairs, via the real UserGuide::placeholders) share a name; "
+                       "ensure_specification_roles_are_supported refuses iff some formula has a role other than assumption/spec/definition; ensure_valid_formula_representation refuses iff the representation is not tau-star. "
+                       "NOT decided: Tightness::is_tight and PrivateRecursion::has_private_recursion themselves (petgraph, HashMap), the five checks built on set iterator chains "
+                       "(intersection/cloned/difference/filter), regularity (= C08), and that ExternalEquivalenceTask::decompose calls every check, with the right arguments, before emitting anything.",
+        "assumptions": [
+            "Tightness::is_tight is an uninterpreted function of the program here (petgraph is_cyclic_directed, HashMap): NOT verified",
+            "PrivateRecursion::has_private_recursion: NOT verified",
+            "ensure_absence_of_private_recursion, ensure_input_and_output_predicates_are_disjoint, ensure_rule_heads_do_not_contain_input_predicates, "
+            "ensure_specification_assumptions_do_not_contain_output_predicates, ensure_assumptions_only_contain_input_symbols: NOT verified (iterator adapters over set operations)",
+            "the order and arguments of the ensure_* calls in ExternalEquivalenceTask::decompose: NOT verified",
+        ],
+        "not_covered": ["is_tight", "has_private_recursion", "5 of 9 ensure_* methods", "call sites in ExternalEquivalenceTask::decompose", "analyze --property"],
+    },
     "C12": {
         "units": ["strong"],
         "level": "other",
